@@ -26,5 +26,8 @@ TD_ValCfg == [max_size |-> 1, oldest |-> 1, valid_kinds |-> {1}, whitelist |-> {
 TD_Static == {}
 TD_AllowQuery == [ids |-> <<>>, authors |-> <<>>, kinds |-> <<{3}>>, tags |-> {}, since |-> <<>>, until |-> <<>>, limit |-> <<>>]
 TD_JunkConns == {0, 1}
+TD_PkSym == [A |-> 1]
+TD_IdSym == [e0 |-> 1]
+TD_Chars == [a |-> <<97>>]
 Traces == <<>>
 =============================================================================
